@@ -214,7 +214,7 @@ def run_rules(ctx, res):
                 ok = len(rest) == 2 and rest[0].k == "ph" and rest[1].s == ","
                 src = tpl.resolve_text(t, rest[0].ph) if ok else None
                 want = "expr:self.file.terminal_enum.get_type(&%s.name).unwrap()" % sym_b
-                ok = ok and src == want
+                ok = ok and src in (want, want[:-len(".unwrap()")] + "?")
                 res.inst(BOX, key, t.where, True, "payload type from %s" % src)
                 if not ok:
                     res.violate(BOX, key, t.where, "a terminal-typed field must be printed as the payload type looked up under that very field's terminal name (`%s`); template `%s` prints `%s`" % (want, t.text, src))
